@@ -286,6 +286,16 @@ PROPS.update({
         "Trusted: Lean kernel; the scripted backend stands for massdb.v1's Delete (os.Remove of the two files of that space, refused "
         "while plotting: massdb.v1.go)."),
 })
+# C09: "state queries and flag filters agree" on the enum helpers translated from the source on every run
+PROPS["C09"]["props"].append("MassVerif.Props.C09Flags")
+PROPS["C09"]["level_text"] += (" Enum helpers (Props/C09Flags over Generated/Engine.lean, which go/extract/translate.go re-translates from "
+    "poc/engine/engine.go and poc/engine.v2/engine.go to BitVec definitions on every run - a regenerated model, not a hand-written one): for all "
+    "2^32 flag words and state values, States() lists exactly the valid states whose flag the word contains, in ascending order; a state's flag "
+    "selects exactly that state; flags are one bit per state and injective; IsNone iff no state is selected; a union of words selects the union; "
+    "the v2 copy is the same definition by definition.")
+PROPS["C09"]["assumptions"] = PROPS["C09"]["assumptions"] + ["go/extract/translate.go (the translator of the enum helpers: constants with iota, "
+    "one-line return methods over & | ^ << >> comparisons, and the filter-loop shape) is trusted to render Go's unsigned arithmetic as BitVec "
+    "operations; a source outside that fragment yields no definitions and Props/C09Flags stops checking (C09 only)"]
 PROPS["C11"]["props"].append("MassVerif.Props.C11Scan")
 PROPS["C11"]["props"].append("MassVerif.Props.C07File")      # the header block: what is written is what is checked
 PROPS["C11"]["drivers_mod"].append("MassVerif.Driver.Scan")
